@@ -132,7 +132,7 @@ fn garbage(rng: &mut Rng) -> String {
 
 pub fn run(rep: &mut Report) {
     let mut rng = rep.cfg.rng("c03");
-    let n = rep.cfg.budget(400_000, 40_000_000);
+    let n = rep.cfg.budget(400_000, 8_000_000);
     let zones: Vec<Zone> = {
         let mut z = directed_zones();
         for i in 0..40 {
